@@ -12,7 +12,7 @@ from fractions import Fraction
 
 import z3
 
-from .values import (SV, SymObj, SymMap, SymSeq, Unsupported, as_real, as_int, kind_of, truth,
+from .values import (SV, SymObj, SymMap, SymSeq, Leaf, Unsupported, as_real, as_int, kind_of, truth,
                      real_val, NameSort, name_distinct_axioms, is_symbolic)
 from .interp import Interp, Path, PyRaise, PathEnd, SOURCES, Models, BoundMethod
 
@@ -36,12 +36,73 @@ class Outcome:
         return "raise %s" % type(self.exc).__name__
 
 
+class NInt(int):
+    """python int carrying the z3 symbol it was read from (replay mode)."""
+    sym = None
+
+
+class NFloat(float):
+    sym = None
+
+
+class NStr(str):
+    sym = None
+
+
+class _NoPath:
+    """stand-in for cx.path in replay mode: nothing is logged natively (frame obligations hold vacuously)."""
+    writes = ()
+    events = ()
+    inlined = set()
+    notes = []
+
+    def assume(self, c):
+        pass
+
+
+class NativeMap:
+    """replay-mode counterpart of a SymMap over names: content and domain come from the verifier's model."""
+
+    def __init__(self, cx, func, dom=None, leaf=False, label="map"):
+        self.cx, self.func, self.domf, self.leaf, self.label = cx, func, dom, leaf, label
+        self.store = {}
+        self.deleted = set()
+
+    def __contains__(self, k):
+        if k in self.store:
+            return True
+        if k in self.deleted:
+            return False
+        if self.domf is None:
+            return True
+        return bool(self.cx.zeval(self.domf(self.cx._zterm(k))))
+
+    def __getitem__(self, k):
+        if k not in self:
+            raise KeyError(k)
+        if k not in self.store:
+            v = self.cx.fval(self.func, k) if self.func is not None else None
+            self.store[k] = types.SimpleNamespace(value=v) if self.leaf else v
+        return self.store[k]
+
+    def __setitem__(self, k, v):
+        self.store[k] = v
+        self.deleted.discard(k)
+
+    def __delitem__(self, k):
+        if k not in self:
+            raise KeyError(k)
+        self.store.pop(k, None)
+        self.deleted.add(k)
+
+
 class CaseCtx:
     """Per-path construction context handed to Case.build."""
 
-    def __init__(self, path, mode="symbolic", assignment=None, tol=1e-9):
-        self.path = path
-        self.mode = mode  # 'symbolic' | 'native'
+    def __init__(self, path, mode="symbolic", assignment=None, tol=1e-9, zmodel=None):
+        self.path = path if path is not None or mode != "replay" else _NoPath()
+        self.mode = mode  # 'symbolic' | 'native' (python numbers everywhere) | 'replay' (native objects + z3 posts under the model)
+        self.zmodel = zmodel
         self.assignment = assignment or {}
         self.inputs = {}  # name -> SV (symbolic mode)
         self.requires = []
@@ -54,12 +115,24 @@ class CaseCtx:
         self.native_setup = None
         self.notes = []
         self.frame = None
+        self.hints = []   # soft preferences for sampled / counter models (e.g. small sequence lengths); never assumed in proofs
 
     # ---- inputs
     def _inp(self, name, kind):
         if self.mode == "native":
             v = self.assignment[name]
             return v
+        if self.mode == "replay":
+            sym = {"int": z3.Int, "real": z3.Real, "bool": z3.Bool, "name": lambda n: z3.Const(n, NameSort)}[kind](name)
+            sv = SV(sym, kind)
+            self.inputs[name] = sv
+            pv = model_value(self.zmodel, sv)
+            self.assignment[name] = pv
+            if pv is None:
+                raise ReplayImpossible("model value of %s is not representable natively" % name)
+            w = {"int": NInt, "real": NFloat, "bool": NInt, "name": NStr}[kind](pv)
+            w.sym = sym
+            return w
         sv = {"int": lambda: SV(z3.Int(name), "int"), "real": lambda: SV(z3.Real(name), "real"),
               "bool": lambda: SV(z3.Bool(name), "bool"),
               "name": lambda: SV(z3.Const(name, NameSort), "name")}[kind]()
@@ -79,15 +152,122 @@ class CaseCtx:
         return self._inp(name, "name")
 
     def obj(self, cls, label=None, **fields):
-        if self.mode == "native":
+        if self.mode in ("native", "replay"):
             return make_native(cls, fields)
         return SymObj(cls, fields, label=label)
 
-    # ---- spec helpers (work in both modes)
-    def t(self, v):
-        """z3 term (symbolic mode) or python number (native mode) of a value."""
+    # ---- model-backed helpers (symbolic: z3 terms / SymSeq / SymMap; replay: python values read from the model)
+    def _zterm(self, v):
         if isinstance(v, SV):
             return v.t
+        if getattr(v, "sym", None) is not None:
+            return v.sym
+        if isinstance(v, z3.ExprRef):
+            return v
+        if isinstance(v, bool):
+            return z3.BoolVal(v)
+        if isinstance(v, int):
+            return z3.IntVal(v)
+        if isinstance(v, float):
+            return real_val(v)
+        if isinstance(v, str):
+            # a name value of the model (e.g. 'Name!val!0') or a literal name
+            for c in self._name_universe():
+                if str(c) == v:
+                    return c
+            from .values import name_const
+            return name_const(v)
+        raise Unsupported("no z3 term for %r" % (v,))
+
+    def _name_universe(self):
+        try:
+            return list(self.zmodel.get_universe(NameSort) or [])
+        except Exception:
+            return []
+
+    def fval(self, func, *args):
+        """func(*args): a z3-valued SV symbolically; the model's python value in replay mode."""
+        app = func(*[self._zterm(a) for a in args])
+        k = {"Int": "int", "Real": "real", "Bool": "bool"}.get(str(app.sort()), "name")
+        if self.mode == "symbolic":
+            return SV(app, k)
+        v = model_value(self.zmodel, SV(app, k))
+        if v is None:
+            raise ReplayImpossible("model value of %s is not representable natively" % app)
+        return v
+
+    def seq(self, length, func, *prefix, label="seq", facts=None):
+        """sequence i -> func(*prefix, i) of the given length."""
+        if self.mode == "symbolic":
+            pre = [self._zterm(a) for a in prefix]
+
+            def elem(i):
+                it = z3.IntVal(i) if isinstance(i, int) else i
+                app = func(*(pre + [it]))
+                k = {"Int": "int", "Real": "real", "Bool": "bool"}.get(str(app.sort()), "name")
+                return SV(app, k)
+            return SymSeq(length, elem, label=label, facts=facts)
+        return [self.fval(func, *(list(prefix) + [i])) for i in range(int(length))]
+
+    def map(self, func, dom=None, leaf=False, label="map"):
+        """map over names: k -> func(k) on the domain dom(k) (z3 predicate on the key term)."""
+        if self.mode == "symbolic":
+            cache = {}
+
+            def get(k):
+                key = k.t.get_id()
+                if key not in cache:
+                    app = func(k.t)
+                    kd = {"Int": "int", "Real": "real", "Bool": "bool"}.get(str(app.sort()), "name")
+                    cache[key] = Leaf(SV(app, kd)) if leaf else SV(app, kd)
+                return cache[key]
+            return SymMap((lambda k: dom(k.t)) if dom is not None else (lambda k: z3.BoolVal(True)), get, label=label)
+        return NativeMap(self, func, dom, leaf, label)
+
+    def field(self, obj, name):
+        """current value of an attribute of a case object (SymObj field / native attribute)."""
+        if isinstance(obj, SymObj):
+            return obj.fields.get(name)
+        return getattr(obj, name)
+
+    def dom(self, mp, key):
+        """key in mp (z3 Bool / bool)."""
+        if self.mode == "symbolic":
+            return self.interp.map_dom(mp, key)
+        return key in mp
+
+    def add(self, a, b):
+        if self.mode == "symbolic":
+            import ast as _ast
+            return self.interp.binop(_ast.Add, a, b)
+        return a + b
+
+    def zeval(self, expr):
+        """truth of a z3 Bool under the replay model, with a tolerance on arithmetic comparisons."""
+        return zeval(expr, self.zmodel, self.tol)
+
+    def num(self, v):
+        """z3 real term of a value of either mode (python number, SV, Leaf, input wrapper -> its *native* value)."""
+        from .values import as_real as _ar
+        if isinstance(v, (NInt, NFloat)):
+            return real_val(float(v)) if isinstance(v, NFloat) else z3.RealVal(int(v))
+        if hasattr(v, "value") and not isinstance(v, (SV,)) and self.mode != "symbolic":
+            v = v.value
+        try:
+            import numpy as _np
+            if isinstance(v, _np.generic):
+                v = v.item()
+        except Exception:
+            pass
+        return _ar(v)
+
+    # ---- spec helpers (work in both modes)
+    def t(self, v):
+        """z3 term (symbolic mode) or python number (native mode) of a value; in replay mode the z3 symbol of an input."""
+        if isinstance(v, SV):
+            return v.t
+        if self.mode == "replay" and getattr(v, "sym", None) is not None:
+            return v.sym
         return v
 
     def assume(self, *conds):
@@ -95,6 +275,12 @@ class CaseCtx:
             self.requires.append(c)
             if self.mode == "symbolic":
                 self.path.assume(c)
+
+    def is_symbolic(self):
+        return self.mode == "symbolic"
+
+    def hint(self, *conds):
+        self.hints.extend(conds)
 
     def target(self, f, *args, **kwargs):
         self.target_call = (f, args, kwargs)
@@ -140,6 +326,83 @@ class CaseCtx:
         return a < b
 
 
+class ReplayImpossible(Exception):
+    pass
+
+
+def _num_of(v):
+    """python float of a z3 numeral (rational / algebraic), else None."""
+    try:
+        if z3.is_algebraic_value(v):
+            v = v.approx(20)
+        if z3.is_rational_value(v) or z3.is_int_value(v):
+            return float(Fraction(v.numerator_as_long(), v.denominator_as_long()))
+    except Exception:
+        pass
+    return None
+
+
+def zeval(expr, zmodel, tol=1e-9):
+    """True / False / None: value of a z3 Bool under zmodel with relative tolerance tol on ==, <=, < between reals."""
+    if isinstance(expr, bool):
+        return expr
+    e = expr
+    if z3.is_true(e):
+        return True
+    if z3.is_false(e):
+        return False
+    k = e.decl().kind() if z3.is_app(e) else None
+    ch = e.children() if z3.is_app(e) else []
+    if k == z3.Z3_OP_AND:
+        vs = [zeval(c, zmodel, tol) for c in ch]
+        return False if any(v is False for v in vs) else (None if any(v is None for v in vs) else True)
+    if k == z3.Z3_OP_OR:
+        vs = [zeval(c, zmodel, tol) for c in ch]
+        return True if any(v is True for v in vs) else (None if any(v is None for v in vs) else False)
+    if k == z3.Z3_OP_NOT:
+        v = zeval(ch[0], zmodel, tol)
+        return None if v is None else (not v)
+    if k == z3.Z3_OP_IMPLIES:
+        a = zeval(ch[0], zmodel, tol)
+        if a is False:
+            return True
+        b = zeval(ch[1], zmodel, tol)
+        if a is True:
+            return b
+        return True if b is True else None
+    if k == z3.Z3_OP_ITE and z3.is_bool(e):
+        c = zeval(ch[0], zmodel, tol)
+        if c is None:
+            return None
+        return zeval(ch[1] if c else ch[2], zmodel, tol)
+    if k in (z3.Z3_OP_EQ, z3.Z3_OP_LE, z3.Z3_OP_LT, z3.Z3_OP_GE, z3.Z3_OP_GT, z3.Z3_OP_DISTINCT) and len(ch) == 2 and z3.is_arith(ch[0]):
+        a = _num_of(zmodel.eval(ch[0], model_completion=True))
+        b = _num_of(zmodel.eval(ch[1], model_completion=True))
+        if a is None or b is None:
+            return None
+        slack = tol * max(1.0, abs(a), abs(b))
+        if k == z3.Z3_OP_EQ:
+            return abs(a - b) <= slack
+        if k == z3.Z3_OP_DISTINCT:
+            return abs(a - b) > slack
+        if k == z3.Z3_OP_LE:
+            return a <= b + slack
+        if k == z3.Z3_OP_LT:
+            return a < b + slack
+        if k == z3.Z3_OP_GE:
+            return a >= b - slack
+        return a > b - slack
+    if k == z3.Z3_OP_EQ and len(ch) == 2 and z3.is_bool(ch[0]):
+        a, b = zeval(ch[0], zmodel, tol), zeval(ch[1], zmodel, tol)
+        return None if a is None or b is None else (a == b)
+    v = zmodel.eval(e, model_completion=True)
+    if z3.is_true(v):
+        return True
+    if z3.is_false(v):
+        return False
+    return None
+
+
 def _has_z3(x):
     return isinstance(x, (z3.ExprRef, SV))
 
@@ -170,7 +433,7 @@ def make_native(cls, fields):
 
 class Case:
     def __init__(self, name, build, target=None, properties=(), known=None, sample=None, crosscheck=True,
-                 native_compare=None):
+                 native_compare=None, replay="native"):
         self.name = name
         self.build = build  # build(cx) -> None (sets cx.target, cx.ensure...)
         self.target = target
@@ -178,6 +441,7 @@ class Case:
         self.sample = sample  # optional callable(rng)->assignment dict for cross-check
         self.crosscheck = crosscheck
         self.native_compare = native_compare
+        self.replay = replay   # 'native' (python numbers, posts evaluated in python) | 'model' (native objects, z3 posts under the model)
 
 
 class Contract:
@@ -269,8 +533,8 @@ def _scratch_dir():
     return _SCRATCH
 
 
-def discharge(axioms, pc, goal, use_cvc5_fallback=True, also_cvc5=False, extra_assume=None):
-    """Returns dict(verdict, backend, seconds, model)."""
+def discharge(axioms, pc, goal, use_cvc5_fallback=True, also_cvc5=False, extra_assume=None, prefer=()):
+    """Returns dict(verdict, backend, seconds, model). `prefer`: soft constraints for a nicer counter-model."""
     fs = list(axioms) + list(pc) + ([extra_assume] if extra_assume is not None else []) + [z3.Not(goal)]
     t0 = time.time()
     s = _tactic_solver(fs, Z3_TIMEOUT_MS)
@@ -282,6 +546,14 @@ def discharge(axioms, pc, goal, use_cvc5_fallback=True, also_cvc5=False, extra_a
     elif r == z3.sat:
         res["verdict"] = "refuted"
         res["model"] = s.model()
+        if prefer:
+            s.push()
+            for h in prefer:
+                s.add(h)
+            s.set("timeout", 3000)
+            if s.check() == z3.sat:
+                res["model"] = s.model()
+            s.pop()
     else:
         res["verdict"] = "unknown"
         res["reason"] = s.reason_unknown()
@@ -487,7 +759,7 @@ def run_case(contract, case, tier="quick", known=None, do_crosscheck=True, seed=
                     entry["known_model"] = _model_dict(inside["model"], cx)
                 res.obligations.append(entry)
                 continue
-            d = discharge(path.axioms, pc, goal, also_cvc5=also_cvc5)
+            d = discharge(path.axioms, pc, goal, also_cvc5=also_cvc5, prefer=cx.hints)
             entry.update(verdict=d["verdict"], backend=d["backend"], seconds=d["seconds"])
             if d.get("cvc5") is not None:
                 entry["cvc5"] = d["cvc5"]
@@ -496,6 +768,7 @@ def run_case(contract, case, tier="quick", known=None, do_crosscheck=True, seed=
             if d["verdict"] == "refuted":
                 entry["model"] = _model_dict(d["model"], cx)
                 entry["goal"] = _short_term(goal)
+                entry["_zmodel"] = d["model"]
             res.obligations.append(entry)
     res.paths = live
     # vacuity: requires satisfiable (cover) and canary (False must be refuted on the first live path)
@@ -511,16 +784,26 @@ def run_case(contract, case, tier="quick", known=None, do_crosscheck=True, seed=
         res.vacuity["cover"] = str(s.check())
     except Exception as e:
         res.vacuity["cover"] = "error: %s" % e
-    if do_crosscheck and case.crosscheck and not res.unsupported and res.error is None:
+    if do_crosscheck and case.replay == "model" and not res.unsupported and res.error is None and \
+            all(e.get("verdict") == "discharged" for e in res.obligations):
+        try:
+            crosscheck_model(contract, case, res, n=(6 if tier == "quick" else 60), seed=seed)
+        except Exception:
+            res.crosscheck["error"] = traceback.format_exc()
+    elif do_crosscheck and case.crosscheck and not res.unsupported and res.error is None:
         try:
             crosscheck(contract, case, paths, res, n=(25 if tier == "quick" else 300), seed=seed)
         except Exception:
             res.crosscheck["error"] = traceback.format_exc()
     # replay refuted obligations natively
     for entry in res.obligations:
+        zm = entry.pop("_zmodel", None)
         if entry.get("verdict") == "refuted" and "model" in entry:
             try:
-                entry["replay"] = replay_native(contract, case, entry["model"], entry["name"].split("#")[-1])
+                if case.replay == "model" and zm is not None:
+                    entry["replay"] = replay_model(contract, case, zm, entry["name"].split("#")[-1])
+                else:
+                    entry["replay"] = replay_native(contract, case, entry["model"], entry["name"].split("#")[-1])
             except Exception:
                 entry["replay"] = dict(reproduced=False, error=traceback.format_exc()[-800:])
         if entry.get("known_finding") and entry.get("known_model"):
@@ -636,7 +919,63 @@ def replay_native(contract, case, model, post_name):
     return rep
 
 
-def _sample_assignment(case, contract, rng, models):
+def replay_model(contract, case, zmodel, post_name):
+    """Replay a counter-model against the real code: the case is rebuilt with *real* objects whose field values,
+    sequence elements and map contents are read from the verifier's model; the real function runs natively; the
+    postcondition (a z3 formula over the inputs and the native results) is evaluated under the model."""
+    cx = CaseCtx(None, mode="replay", zmodel=zmodel)
+    rep = dict(mode="model")
+    try:
+        case.build(cx)
+    except ReplayImpossible as e:
+        rep.update(reproduced=False, note=str(e))
+        return rep
+    rep["inputs"] = {k: (v if isinstance(v, (int, float, str, bool)) else repr(v)) for k, v in cx.assignment.items()}
+    for c in cx.requires:
+        if zeval(c, zmodel, 1e-9) is False:
+            rep.update(reproduced=False, note="model violates requires under native evaluation (rounding)")
+            return rep
+    f, args, kwargs = cx.target_call
+    try:
+        import warnings
+        with warnings.catch_warnings(record=True):
+            warnings.simplefilter("always")
+            v = f(*args, **kwargs)
+        outcome = Outcome("return", value=v)
+    except Exception as e:
+        outcome = Outcome("raise", exc=e)
+        rep["traceback"] = traceback.format_exc()[-600:]
+    rep["native_outcome"] = repr(outcome)[:300]
+    if post_name.startswith("no_raise"):
+        if outcome.kind == "raise":
+            ok = False
+            for cls, when in cx.allowed_raises:
+                if isinstance(outcome.exc, cls) and zeval(when if not isinstance(when, bool) else z3.BoolVal(when), zmodel) is True:
+                    ok = True
+            rep["reproduced"] = not ok
+            rep["observed"] = _describe_exc(outcome.exc)
+        else:
+            rep["reproduced"] = False
+        return rep
+    if cx.post_fn is None:
+        rep["reproduced"] = False
+        return rep
+    try:
+        posts = dict(cx.post_fn(outcome) or [])
+    except Exception as e:
+        rep.update(reproduced=False, note="post not evaluable natively: %r" % (e,), traceback=traceback.format_exc()[-600:])
+        return rep
+    if post_name not in posts:
+        rep.update(reproduced=False, note="obligation is internal to the verified text or path-specific (no native observable)")
+        return rep
+    g = posts[post_name]
+    t = g if isinstance(g, bool) else zeval(g, zmodel, 1e-9)
+    rep["reproduced"] = (t is False)
+    rep["post_value"] = t
+    return rep
+
+
+def _sample_assignment(case, contract, rng, models, want_model=False):
     """Random concrete assignment satisfying requires (z3-guided)."""
     p0 = Path([], axioms=list(contract.axioms()) if contract.axioms else [])
     cx0 = CaseCtx(p0)
@@ -647,6 +986,11 @@ def _sample_assignment(case, contract, rng, models):
     s.set("random_seed", rng.randrange(1 << 30))
     for c in p0.pc:
         s.add(c)
+    s.push()
+    for h in cx0.hints:
+        s.add(h)
+    if s.check() != z3.sat:
+        s.pop()
     # diversify: soft random anchors
     anchors = []
     for nm, sv in cx0.inputs.items():
@@ -681,10 +1025,67 @@ def _sample_assignment(case, contract, rng, models):
     if r != z3.sat:
         return None
     m = s.model()
+    if want_model:
+        return m
     out = {nm: model_value(m, sv) for nm, sv in cx0.inputs.items()}
     if any(v is None for v in out.values()):
         return None
     return out
+
+
+def crosscheck_model(contract, case, res, n=10, seed=0):
+    """Run-time contract check on the real code: models of the precondition are turned into real objects, the real
+    function runs natively and every postcondition is evaluated under the model (engine / contract self-check)."""
+    rng = random.Random(seed * 104729 + hash(case.name) % 100000)
+    models = contract.models() if contract.models else default_models()
+    for _ in range(n):
+        zm = _sample_assignment(case, contract, rng, models, want_model=True)
+        if zm is None:
+            continue
+        res.crosscheck["samples"] += 1
+        cx = CaseCtx(None, mode="replay", zmodel=zm)
+        try:
+            case.build(cx)
+        except ReplayImpossible:
+            continue
+        if any(zeval(c, zm, 1e-9) is False for c in cx.requires):
+            continue
+        f, args, kwargs = cx.target_call
+        try:
+            import warnings
+            with warnings.catch_warnings(record=True):
+                warnings.simplefilter("always")
+                v = f(*args, **kwargs)
+            outcome = Outcome("return", value=v)
+        except Exception as e:
+            outcome = Outcome("raise", exc=e)
+        if outcome.kind == "raise":
+            ok = any(isinstance(outcome.exc, cls) and zeval(when if not isinstance(when, bool) else z3.BoolVal(when), zm) is not False
+                     for cls, when in cx.allowed_raises)
+            res.crosscheck["compared"] += 1
+            if not ok:
+                res.crosscheck["mismatches"].append(dict(inputs=_plain(cx.assignment), native=repr(outcome)[:200],
+                                                         note="real code raised where every symbolic path returned or the contract forbids it: %s" % traceback.format_exception_only(type(outcome.exc), outcome.exc)[-1][:200]))
+            if cx.post_fn is None:
+                continue
+        if cx.post_fn is None:
+            continue
+        try:
+            posts = cx.post_fn(outcome) or []
+        except Exception as e:
+            res.crosscheck["mismatches"].append(dict(inputs=_plain(cx.assignment), note="post not evaluable natively: %r" % (e,)))
+            continue
+        res.crosscheck["compared"] += 1
+        for nm, g in posts:
+            t = g if isinstance(g, bool) else zeval(g, zm, 1e-7)
+            if t is False:
+                res.crosscheck["mismatches"].append(dict(inputs=_plain(cx.assignment), post=nm, native=repr(outcome)[:200],
+                                                         note="postcondition proved symbolically is false on the real code"))
+
+
+def _plain(d):
+    return {k: (v if isinstance(v, (int, float, str, bool)) and not isinstance(v, (NInt, NFloat, NStr)) else
+                (int(v) if isinstance(v, NInt) else float(v) if isinstance(v, NFloat) else str(v))) for k, v in d.items()}
 
 
 def _subst_value(v, subs):
